@@ -190,7 +190,7 @@ def gen_discrete():
         outcomes = sorted(draw(st.lists(st.sampled_from(grid), min_size=k, max_size=k, unique=True)))
         return {"prior": prior, "w": w, "outcomes": [float(o) for o in outcomes], "int_init": draw(st.booleans()), "path": draw(st.sampled_from(["none", "direct", "calc", "named_var", "two_level", "weak_resid"])),
                 "explicit_outcomes": draw(st.booleans()), "n": draw(st.integers(1, 4)), "seed": draw(st.integers(0, 10**6)), "case_seed": draw(st.integers(0, 2**30)),
-                "scale": draw(st.sampled_from([0.7, 1.5, 4.0])), "z0": draw(st.integers(0, 5))}
+                "scale": draw(st.sampled_from([0.7, 1.5, 4.0])), "z0": draw(st.integers(0, 5)), "tempered": draw(st.integers(0, 3)) == 0}
 
     return g()
 
@@ -237,7 +237,11 @@ def make_discrete_model(c):
         bscale = lsl.Var(lsl.Calc(lambda v: 0.3 + 0.4 * jnp.abs(jnp.asarray(v, dtype=jnp.float32)), z), name="beta_scale")
         beta = lsl.param(np.float32(0.8), lsl.Dist(tfd.Normal, loc=np.float32(0.0), scale=bscale), name="beta")
         roots = [lsl.obs(y, lsl.Dist(tfd.Normal, loc=beta, scale=sc), name="y")]
-    model = lsl.GraphBuilder().add(*roots, z).build_model()
+    gb = lsl.GraphBuilder().add(*roots, z)
+    if c.get("tempered") and path in ("direct", "calc", "named_var", "two_level"):
+        # user-defined joint density (GraphBuilder.log_prob_node): tempered likelihood times the prior of z
+        gb.log_prob_node = lsl.Calc(lambda a, b: 0.5 * jnp.sum(a) + jnp.sum(b), roots[0].dist_node, z.dist_node, _name="tempered_lp")
+    model = gb.build_model()
     return model, outcomes, probs
 
 
